@@ -71,6 +71,17 @@ def _removable(leg):
     return len(leg.t) <= 1 and all(d == 1 for d in leg.D) and not leg.is_fused()
 
 
+def _flat_legs(leg):
+    if type(leg).__name__ == 'LegMeta':
+        return [x for l in leg.legs for x in _flat_legs(l)]
+    return [leg]
+
+
+def _removable_meta(leg):
+    """meta-fused leg all of whose constituents are dimension-one single-charge legs"""
+    return type(leg).__name__ == 'LegMeta' and all(_removable(l) for l in _flat_legs(leg))
+
+
 def enabled(x, level=0):
     """list of actions applicable to x"""
     r = x.ndim
@@ -118,7 +129,7 @@ def enabled(x, level=0):
             A({'op': 'switch_signature', 'axes': [ax]})
         if not fused[ax]:
             A({'op': 'flip_charges', 'axes': [ax]})
-        if _removable(legs[ax]) and type(legs[ax]).__name__ == 'Leg':
+        if (_removable(legs[ax]) and type(legs[ax]).__name__ == 'Leg') or _removable_meta(legs[ax]):
             A({'op': 'remove_leg', 'axis': ax})
     if r >= 2 and not any(fused):
         A({'op': 'flip_charges', 'axes': None})
@@ -260,6 +271,9 @@ def apply(x, a):
         return [('r', x.flip_charges(axes=a['axes']) if a['axes'] is not None else x.flip_charges(), n)]
     if op == 'remove_leg':
         leg = x.get_legs(a['axis'])
+        if type(leg).__name__ == 'LegMeta':
+            fl = _flat_legs(leg)
+            return [('r', x.remove_leg(axis=a['axis']), G.add(mods, [n] + [(l.t[0] if l.t else z) for l in fl], (1,) + tuple(-l.s for l in fl)))]
         t = leg.t[0] if leg.t else z
         return [('r', x.remove_leg(axis=a['axis']), G.add(mods, [n, t], (1, -leg.s)))]
     if op == 'add_leg':
